@@ -26,6 +26,7 @@ import (
 	"github.com/pion/sdp/v3"
 	"github.com/pion/srtp/v3"
 	"github.com/pion/webrtc/v4/internal/util"
+	"github.com/pion/webrtc/v4/internal/verifhook"
 	"github.com/pion/webrtc/v4/pkg/rtcerr"
 )
 
@@ -2798,6 +2799,9 @@ func (pc *PeerConnection) startTransports(
 	dtlsRole DTLSRole,
 	remoteUfrag, remotePwd, fingerprint, fingerprintHash string,
 ) {
+	if verifhook.Skip("transports") {
+		return
+	}
 	// Start the ice transport
 	err := pc.iceTransport.Start(
 		pc.iceGatherer,
@@ -2846,6 +2850,9 @@ func (pc *PeerConnection) startRTP(
 	remoteDesc *SessionDescription,
 	currentTransceivers []*RTPTransceiver,
 ) {
+	if verifhook.Skip("transports") {
+		return
+	}
 	if !isRenegotiation {
 		pc.undeclaredMediaProcessor()
 	}
